@@ -226,11 +226,30 @@ func (w *world) shutdown() {
 	vh.Within(2*time.Second, func() { w.cl.Close() })
 	// nothing of this world may still be running when the next one starts (the hook is global)
 	vh.Within(2*time.Second, func() { w.wg.Wait() })
+	w.unhook()
+}
+
+func (w *world) unhook() {
 	curMu.Lock()
 	if current == w {
 		current = nil
 	}
 	curMu.Unlock()
+}
+
+// shutdownKeepHook is shutdown without detaching the hook: what the client still does is logged.
+func (w *world) shutdownKeepHook() {
+	w.dbg.open()
+	w.mu.Lock()
+	w.gating = false
+	for p, ch := range w.release {
+		close(ch)
+		delete(w.release, p)
+	}
+	w.mu.Unlock()
+	w.srv.Close()
+	vh.Within(2*time.Second, func() { w.cl.Close() })
+	vh.Within(2*time.Second, func() { w.wg.Wait() })
 }
 
 type schedEv struct {
@@ -679,6 +698,11 @@ func autoServer(w *world, stop chan struct{}, rng *rand.Rand, killAfter int) {
 		if strings.Contains(line, "LIST") {
 			w.srv.Write([]byte("* LIST () \"/\" a\r\n"))
 		}
+		if strings.Contains(line, " CAPABILITY") {
+			w.srv.Write([]byte("* CAPABILITY IMAP4rev1\r\n"))
+		}
+		// (a LOGIN is answered without CAPABILITY code: the client forgets what it knew and asks again on its
+		// own, while the other goroutines go on submitting commands)
 		w.srv.Write([]byte(tag + " OK done\r\n"))
 	}
 }
@@ -723,7 +747,9 @@ func cmdStress(path string, seed int64, rounds int) {
 					done := make(chan struct{})
 					go func() {
 						defer close(done)
-						switch lr.Intn(7) {
+						switch lr.Intn(8) {
+						case 7:
+							w.cl.Login("u", "p").Wait()
 						case 5:
 							// literal-bearing, streaming its octets: encMutex is held from the command line
 							// until the literal has been written or refused
@@ -768,10 +794,35 @@ func cmdStress(path string, seed int64, rounds int) {
 		wg.Wait()
 		close(stop)
 		_ = waits
-		w.mu.Lock()
-		log := append([]hookEv(nil), w.log...)
-		w.mu.Unlock()
-		w.shutdown()
+		// the client is closed first: commands the client issues on its own (the CAPABILITY after a LOGIN) may
+		// still be in flight when the callers are done, and Close completes whatever is pending
+		w.shutdownKeepHook()
+		// ... and a goroutine of the client itself may be in the middle of such a command right now (it fails on
+		// the closed connection within microseconds): the log is taken once every registered command has been
+		// completed, or after half a second (then the missing completion is what the log shows)
+		var log []hookEv
+		for deadline := time.Now().Add(500 * time.Millisecond); ; time.Sleep(200 * time.Microsecond) {
+			w.mu.Lock()
+			log = append([]hookEv(nil), w.log...)
+			w.mu.Unlock()
+			reg, comp := map[string]bool{}, map[string]bool{}
+			for _, e := range log {
+				switch e.Point {
+				case "begin.registered":
+					reg[e.Tag] = true
+				case "complete":
+					comp[e.Tag] = true
+				}
+			}
+			all := true
+			for t := range reg {
+				all = all && comp[t]
+			}
+			if all || time.Now().After(deadline) {
+				break
+			}
+		}
+		w.unhook()
 		enc.Encode(map[string]interface{}{"ev": "Reset", "mode": mode})
 		records++
 		for _, e := range log {
